@@ -378,4 +378,222 @@ theorem rat_mul_add (m : Rat) (a b : Int) : m * ((a + b : Int) : Rat) = m * (a :
 theorem rat_mul_mul (m : Rat) (a b : Int) : m * ((a * b : Int) : Rat) = m * (a : Rat) * (b : Rat) := by
   push_cast; ring
 
+/-! ## case-insensitive prefixes -/
+
+theorem toLowerC_eq_58 {c : Nat} (h : toLowerC c = 58) : c = 58 := by
+  unfold toLowerC at h
+  split at h
+  · rename_i hu; simp [isUpper] at hu; omega
+  · exact h
+
+theorem toLowerC_eq_35 {c : Nat} (h : toLowerC c = 35) : c = 35 := by
+  unfold toLowerC at h
+  split at h
+  · rename_i hu; simp [isUpper] at hu; omega
+  · exact h
+
+theorem mem_lower_58 {s : Str} : 58 ∈ lower s ↔ 58 ∈ s := by
+  constructor
+  · intro h
+    obtain ⟨c, hc, e⟩ := List.mem_map.1 h
+    rw [toLowerC_eq_58 e] at hc; exact hc
+  · intro h; exact List.mem_map.2 ⟨58, h, by decide⟩
+
+theorem mem_lower_35 {s : Str} : 35 ∈ lower s ↔ 35 ∈ s := by
+  constructor
+  · intro h
+    obtain ⟨c, hc, e⟩ := List.mem_map.1 h
+    rw [toLowerC_eq_35 e] at hc; exact hc
+  · intro h; exact List.mem_map.2 ⟨35, h, by decide⟩
+
+theorem lower_append (a b : Str) : lower (a ++ b) = lower a ++ lower b := by simp [lower]
+
+theorem startsWith_iff {l p : Str} : startsWith l p = true ↔ ∃ r, l = p ++ r := by
+  unfold startsWith
+  rw [List.isPrefixOf_iff_prefix]
+  constructor
+  · rintro ⟨r, hr⟩; exact ⟨r, hr.symm⟩
+  · rintro ⟨r, hr⟩; exact ⟨r, hr.symm⟩
+
+/-- a text whose lower-cased form starts with `p` is `p' ++ t` with `lower p' = p` -/
+theorem split_of_startsWith_lower {s p : Str} (h : startsWith (lower s) p = true) :
+    ∃ p' t, s = p' ++ t ∧ lower p' = p := by
+  obtain ⟨r, hr⟩ := startsWith_iff.1 h
+  obtain ⟨l₁, l₂, h1, h2, _⟩ := List.map_eq_append_iff.1 hr
+  exact ⟨l₁, l₂, h1, h2⟩
+
+theorem colon_of_startsWith_lower {s p : Str} (h : startsWith (lower s) p = true) (hp : 58 ∈ p) : 58 ∈ s := by
+  obtain ⟨r, hr⟩ := startsWith_iff.1 h
+  apply mem_lower_58.1
+  rw [hr]; simp [hp]
+
+/-- if `lower p' = q ++ ":"` and `q` has no colon, the first colon of `p' ++ t` is the last character of `p'` -/
+theorem spanP_colon_prefix {p' q : Str} (t : Str) (hp : lower p' = q ++ [58]) (hq : 58 ∉ q) :
+    ∃ q', p' = q' ++ [58] ∧ lower q' = q ∧ spanP (· != 58) (p' ++ t) = (q', 58 :: t) := by
+  obtain ⟨l₁, l₂, h1, h2, h3⟩ := List.map_eq_append_iff.1 hp
+  obtain ⟨c, hc, e⟩ := List.map_eq_singleton_iff.1 h3
+  have e' := toLowerC_eq_58 e
+  subst hc; subst e'
+  have hq' : 58 ∉ l₁ := by
+    intro hh; apply hq; rw [← h2]; exact mem_lower_58.2 hh
+  refine ⟨l₁, h1, h2, ?_⟩
+  rw [h1, List.append_assoc]
+  exact spanP_append_stop (· != 58) 58 t (by simp) l₁ (ne_of_not_mem hq')
+
+theorem afterColon_prefix {p' q : Str} (t : Str) (hp : lower p' = q ++ [58]) (hq : 58 ∉ q) :
+    afterColon (p' ++ t) = some t := by
+  obtain ⟨q', _, _, h⟩ := spanP_colon_prefix t hp hq
+  simp [afterColon, h]
+
+theorem joinAfterColon_prefix {p' q : Str} (t : Str) (hp : lower p' = q ++ [58]) (hq : 58 ∉ q) :
+    joinAfterColon (p' ++ t) = t.filter (· != 58) := by
+  obtain ⟨q', _, _, h⟩ := spanP_colon_prefix t hp hq
+  simp [joinAfterColon, h]
+
+theorem splitColon1_prefix {p' q : Str} (t : Str) (hp : lower p' = q ++ [58]) (hq : 58 ∉ q) :
+    splitColon1 (p' ++ t) = some (spanP (· != 58) t).1 := by
+  obtain ⟨q', _, _, h⟩ := spanP_colon_prefix t hp hq
+  simp [splitColon1, h]
+
+theorem not_hash_prefix {p' p t : Str} (hp : lower p' = p) (h35p : 35 ∉ p) (h35 : 35 ∉ t) : 35 ∉ p' ++ t := by
+  intro h
+  rcases List.mem_append.1 h with e | e
+  · apply h35p; rw [← hp]; exact mem_lower_35.2 e
+  · exact h35 e
+
+theorem convertType_prefix {p' p : Str} (t : Str) (hp : lower p' = p) (h58 : 58 ∈ p) :
+    convertType (p' ++ t) = .str := by
+  apply convertType_colon
+  apply List.mem_append_left
+  apply mem_lower_58.1; rw [hp]; exact h58
+
+
+/-- decidable side condition on a concrete prefix: ends in `:` and has no other `:`, no `#` -/
+def goodPrefix (p : Str) : Bool := p.getLast? == some 58 && !p.dropLast.contains 58 && !p.contains 35
+
+theorem goodPrefix_split {p : Str} (h : goodPrefix p = true) : p = p.dropLast ++ [58] ∧ 58 ∉ p.dropLast ∧ 35 ∉ p := by
+  simp only [goodPrefix, Bool.and_eq_true, beq_iff_eq, Bool.not_eq_true', List.contains_eq_mem,
+    decide_eq_false_iff_not] at h
+  obtain ⟨⟨h1, h2⟩, h3⟩ := h
+  obtain ⟨ys, hy⟩ := List.getLast?_eq_some_iff.1 h1
+  subst hy
+  simp only [List.dropLast_concat] at h2 ⊢
+  exact ⟨trivial, h2, h3⟩
+
+structure PrefixFacts (p' p t : Str) : Prop where
+  noHash : 35 ∉ p' ++ t
+  conv : convertType (p' ++ t) = .str
+  after : afterColon (p' ++ t) = some t
+  join : joinAfterColon (p' ++ t) = t.filter (· != 58)
+  split1 : splitColon1 (p' ++ t) = some (spanP (· != 58) t).1
+  low : lower (p' ++ t) = p ++ lower t
+
+theorem prefixFacts {p' p t : Str} (hp : lower p' = p) (hg : goodPrefix p = true) (h35 : 35 ∉ t) :
+    PrefixFacts p' p t := by
+  obtain ⟨h1, h2, h3⟩ := goodPrefix_split hg
+  have hp' : lower p' = p.dropLast ++ [58] := by rw [hp]; exact h1
+  refine ⟨not_hash_prefix hp h3 h35, convertType_prefix t hp (by rw [h1]; simp), afterColon_prefix t hp' h2,
+    joinAfterColon_prefix t hp' h2, splitColon1_prefix t hp' h2, by rw [lower_append, hp]⟩
+
+theorem mass_xlmod_prefix (T : Tables) (p' t : Str) (mono : Bool) (hp : lower p' ∈ pXlmod) (h35 : 35 ∉ t) :
+    parseModMass T (p' ++ t) mono = (getMass T T.xlmod t mono).map some := by
+  simp only [pXlmod, List.mem_cons, List.mem_nil_iff, or_false] at hp
+  rcases hp with hp | hp
+  all_goals
+    obtain ⟨h1, h2, h3, _, _, hl⟩ := prefixFacts hp (by decide) h35
+    rw [parseModMass_str T mono h1 h2]
+    simp [massStrBody, hasPrefix, stripPrefix, pGno, pXlmod, hl, h3, startsWith, List.isPrefixOf]
+
+
+theorem mass_gno_prefix (T : Tables) (p' t : Str) (mono : Bool) (hp : lower p' ∈ pGno) (h35 : 35 ∉ t) :
+    parseModMass T (p' ++ t) mono = (getMass T T.gno t mono).map some := by
+  simp only [pGno, List.mem_cons, List.mem_nil_iff, or_false] at hp
+  rcases hp with hp | hp
+  all_goals
+    obtain ⟨h1, h2, h3, _, _, hl⟩ := prefixFacts hp (by decide) h35
+    rw [parseModMass_str T mono h1 h2]
+    simp [massStrBody, hasPrefix, stripPrefix, pGno, hl, h3, startsWith, List.isPrefixOf]
+
+theorem mass_resid_prefix (T : Tables) (p' t : Str) (mono : Bool) (hp : lower p' ∈ pResid) (h35 : 35 ∉ t) :
+    parseModMass T (p' ++ t) mono = (getMass T T.resid t mono).map some := by
+  simp only [pResid, List.mem_cons, List.mem_nil_iff, or_false] at hp
+  rcases hp with hp | hp
+  all_goals
+    obtain ⟨h1, h2, h3, _, _, hl⟩ := prefixFacts hp (by decide) h35
+    rw [parseModMass_str T mono h1 h2]
+    simp [massStrBody, hasPrefix, stripPrefix, pGno, pXlmod, pResid, hl, h3, startsWith, List.isPrefixOf]
+
+theorem mass_psi_prefix (T : Tables) (p' t : Str) (mono : Bool) (hp : lower p' ∈ pPsi) (h35 : 35 ∉ t) :
+    parseModMass T (p' ++ t) mono = (getMass T T.psimod t mono).map some := by
+  simp only [pPsi, List.mem_cons, List.mem_nil_iff, or_false] at hp
+  rcases hp with hp | hp | hp
+  all_goals
+    obtain ⟨h1, h2, h3, _, _, hl⟩ := prefixFacts hp (by decide) h35
+    rw [parseModMass_str T mono h1 h2]
+    simp [massStrBody, isDbStr, hasPrefix, stripPrefix, pGno, pXlmod, pResid, pPsi, hl, h3, startsWith,
+      List.isPrefixOf]
+
+theorem mass_unimod_prefix (T : Tables) (p' t : Str) (mono : Bool) (hp : lower p' ∈ pUnimod) (h35 : 35 ∉ t)
+    (hP : isDbStr pPsi T.psimod (p' ++ t) = false) :
+    parseModMass T (p' ++ t) mono = (getMass T T.unimod t mono).map some := by
+  simp only [pUnimod, List.mem_cons, List.mem_nil_iff, or_false] at hp
+  rcases hp with hp | hp
+  all_goals
+    obtain ⟨h1, h2, h3, _, _, hl⟩ := prefixFacts hp (by decide) h35
+    rw [parseModMass_str T mono h1 h2]
+    have hU : isDbStr pUnimod T.unimod (p' ++ t) = true := by
+      simp [isDbStr, hasPrefix, pUnimod, hl, startsWith, List.isPrefixOf]
+    have hS : stripPrefix pUnimod (p' ++ t) = t := by
+      simp [hasPrefix, stripPrefix, pUnimod, hl, h3, startsWith, List.isPrefixOf]
+    simp [massStrBody, hasPrefix, hP, hU, hS, pGno, pXlmod, pResid, hl, startsWith, List.isPrefixOf]
+
+theorem mass_info_prefix (T : Tables) (p' t : Str) (mono : Bool) (hp : lower p' = str% "info:") (h35 : 35 ∉ t) :
+    parseModMass T (p' ++ t) mono = .ok none := by
+  obtain ⟨h1, h2, h3, _, _, hl⟩ := prefixFacts hp (by decide) h35
+  rw [parseModMass_str T mono h1 h2]
+  simp [massStrBody, hasPrefix, pGno, pXlmod, pResid, hl, startsWith, List.isPrefixOf]
+
+theorem mass_obs_prefix (T : Tables) (p' t : Str) (mono : Bool) (hp : lower p' = str% "obs:") (h35 : 35 ∉ t)
+    (hP : isDbStr pPsi T.psimod (p' ++ t) = false) (hU : isDbStr pUnimod T.unimod (p' ++ t) = false) :
+    parseModMass T (p' ++ t) mono =
+      (match parseFloat (t.filter (· != 58)) with
+       | .val r => .ok (some (some r))
+       | .special => .ok (some none)
+       | .bad => .error .invalidDeltaMass) := by
+  obtain ⟨h1, h2, h3, h4, _, hl⟩ := prefixFacts hp (by decide) h35
+  rw [parseModMass_str T mono h1 h2]
+  simp only [massStrBody, obsMassProforma, hasPrefix, hP, hU, pGno, pXlmod, pResid, hl, h4]
+  simp only [startsWith, List.any]
+  simp
+  cases parseFloat (t.filter (· != 58)) <;> rfl
+
+theorem mass_formula_prefix (T : Tables) (p' t : Str) (mono : Bool) (hp : lower p' = str% "formula:") (h35 : 35 ∉ t)
+    (hP : isDbStr pPsi T.psimod (p' ++ t) = false) (hU : isDbStr pUnimod T.unimod (p' ++ t) = false) :
+    parseModMass T (p' ++ t) mono =
+      (match chemMassStr T.mass mono (t.filter (· != 58)) [] with
+       | .ok m => .ok (some (some m))
+       | .error e => .error e) := by
+  obtain ⟨h1, h2, h3, h4, _, hl⟩ := prefixFacts hp (by decide) h35
+  rw [parseModMass_str T mono h1 h2]
+  simp only [massStrBody, chemMassProforma, hasPrefix, hP, hU, pGno, pXlmod, pResid, hl, h4]
+  simp only [startsWith, List.any]
+  simp
+  cases chemMassStr T.mass mono (t.filter (· != 58)) [] <;> rfl
+
+theorem mass_glycan (T : Tables) (s : Str) (mono : Bool) (hp : startsWith (lower s) (str% "glycan:") = true)
+    (h35 : 35 ∉ s) : parseModMass T s mono = glycanMassProforma T s mono := by
+  have hc : convertType s = .str := convertType_colon (colon_of_startsWith_lower hp (by decide))
+  rw [parseModMass_str T mono h35 hc]
+  simp [massStrBody, hp]
+
+theorem getMass_signed (T : Tables) (db : List Entry) (c : Nat) (ds : Str) (mono : Bool) (hc : c = 43 ∨ c = 45) :
+    getMass T db (c :: ds) mono =
+      (match parseFloat (c :: ds) with
+       | .val r => .ok (some r)
+       | .special => .ok none
+       | .bad => .error .invalidDeltaMass) := by
+  rcases hc with rfl | rfl
+  · simp [getMass]; cases parseFloat (43 :: ds) <;> rfl
+  · simp [getMass]; cases parseFloat (45 :: ds) <;> rfl
+
 end ModDbGeneric
